@@ -54,7 +54,9 @@ func init() {
 			"L8: the renewal writes only by CasByVersion; a retry after an error is armed only when both ErrNotExist and ErrConflict were excluded. L5: the renewal is a CAS on the Locker's key with the tenure's version. L6: the renewal does not use the acquisition's context. L7: Unlock cancels the armed timer before deleting the record. " +
 			"T1-T7: the timer keeps heap indices current and Cancel is guarded (C12 rules). U1-U9: a queued renewal is not slept through (C13 rules). U10: the timer worker waits only with a time bound - a blocking select has a timer case, a bare receive is a receive from a timer (C13.R10): a worker blocked for good is still counted, the others retire around it and the renewal is not started. E1/E2: the in-memory store treats an expired record as absent and bounds a parked waiter by the expiry (dead-holder clause). L9: the renewal cancels the timer it has just armed under a condition that reads the Locker's held flag / tenure - the compare-and-swap of the timer slot alone does not see an Unlock (open finding). L10: Unlock deletes the lock record on every path (the Delete is what makes a renewal that is still in flight - see L9 - fail on the version and die out; a record that survives Unlock is renewed for ever). " +
 			"L11: what runs on the renewal timer's goroutine never cancels a timer it has read from the Locker's timer slot (per Locker object, not per tenure: an attempt of a finished tenure that is still in flight would cancel the live timer of the next tenure - it has to change nothing); it may cancel only a timer it armed itself. " +
-			"L12: a storage wait that runs under a context the library derived itself (own deadline or cancellation) never decides the attempt: behind it the attempt fails only after re-reading the caller's context and finding it ended, after seeing the shutdown, or on a later Create - otherwise a waiter whose own context is alive gives up when the dead holder's record is about to lapse instead of acquiring.",
+			"L12: a storage wait that runs under a context the library derived itself (own deadline or cancellation) never decides the attempt: behind it the attempt fails only after re-reading the caller's context and finding it ended, after seeing the shutdown, or on a later Create - otherwise a waiter whose own context is alive gives up when the dead holder's record is about to lapse instead of acquiring. " +
+			"L13: a run of the renewal (the scheduled function and the routine) returns without having attempted the compare-and-set or armed a later attempt only on a path that has found the tenure over (the held flag read and clear) - not because the provider was shut down: Shutdown() does not unlock, the holder's record would lapse under it. " +
+			"L14: the version a renewal compare-and-sets and re-arms with travels with the attempt (parameter / captured variable of the scheduled function); it is never read from a field of the Locker object, which outlives the tenure and is shared with a late renewal of the previous tenure (the renewal routine is also resolved when the scheduled function is a function value bound once and kept in a field).",
 		NotDecided: "every timing statement ('within about one lease period'), clock behaviour.",
 	})
 }
@@ -226,6 +228,10 @@ func resolveLockRoles(c *Ctx) *lockRoles {
 	if r.renewalFactory != nil {
 		claimFn(r.renewalFactory)
 		c.Role("locker.renewalFactory", ir.FnName(r.renewalFactory), r.renewalFactory.Pos())
+	}
+	if r.renewal == nil {
+		// the scheduled function is a function value kept in a field (bound once per Locker): v_lock.go
+		r.renewal = r.renewalViaFuncFieldVL()
 	}
 	c.RequireFn(r.renewal, "locker.renewal")
 	c.Role("locker.renewal", relName(r.renewal), r.renewal.Pos())
@@ -1176,6 +1182,8 @@ func runC05(c *Ctx) {
 	c.unlockDeletes(r, "C05.L10")
 	c.renewalCancelsOwnTimer(r, "C05.L11")
 	c.waitEndsForCallerReasons(r, "C05.L12")
+	c.renewalAttemptsUnlessTenureOver(r, "C05.L13")
+	c.renewalVersionPerTenure(r, "C05.L14")
 
 	// L9: a renewal that is in flight while the holder unlocks arms nothing. Unlock can cancel only the timer it finds in
 	// the slot; a renewal whose timer has already fired arms its successor after that. The renewal therefore has to look
